@@ -38,6 +38,8 @@ type ScenarioReport struct {
 	Findings    []FindingReport `json:"findings,omitempty"`
 	Samples     []string        `json:"samples,omitempty"`
 	WallS       float64         `json:"wall_s"`
+	Diverged    int64           `json:"prefixes_not_replayable"`
+	DivSample   string          `json:"divergence_sample,omitempty"`
 }
 
 type FindingReport struct {
@@ -52,7 +54,8 @@ func explore(name string, cfg vsched.Config) ScenarioReport {
 	cfg.Name = name
 	st := vsched.Explore(cfg)
 	sr := ScenarioReport{Name: name, Executions: st.Executions, Points: st.Points, MaxPoints: st.MaxPoints, BoundDone: st.BoundDone,
-		Preemptions: st.Preemptions, Outcomes: len(st.Outcomes), Exhaustive: st.Exhaustive, Truncated: st.Truncated, Pruned: st.Pruned, Samples: st.Samples, WallS: time.Since(t0).Seconds()}
+		Preemptions: st.Preemptions, Outcomes: len(st.Outcomes), Exhaustive: st.Exhaustive, Truncated: st.Truncated, Pruned: st.Pruned, Samples: st.Samples, WallS: time.Since(t0).Seconds(),
+		Diverged: st.DivergedPrefixes, DivSample: st.DivergenceSample}
 	var sigs []string
 	for s := range st.Findings {
 		sigs = append(sigs, s)
@@ -99,11 +102,26 @@ func Main(prop, tier string, only int) int {
 			jobs = append(jobs, job{"S(" + sc.P.String() + ")", vsched.Config{Bound: sc.Bound, TickBudget: sc.P.Ticks, MaxExec: sc.Max, Deadline: dl, StateKeys: true,
 				Body: c18Body(sc.P), Check: c18Check}})
 		}
+		{
+			// a Session Report Response that meets the expiry of its own retransmission timer (both queued for the
+			// loop at once), with a Modification, its duplicate and a heartbeat behind them: the loop must go on
+			p := c17Params{Name: "response-vs-expiry", PreReport: true, Rsp: true, Fire: 1}
+			b := 3
+			if tier == "thorough" {
+				p.Fire, p.Peers = 2, 1
+			}
+			jobs = append(jobs, job{"S(" + p.String() + ")", vsched.Config{Bound: b, FireBudget: p.Fire, Deadline: dl, StateKeys: true, Body: c17Body(p), Check: c17Check}})
+		}
 	case "C17":
 		for _, sc := range c17Scenarios(tier) {
 			jobs = append(jobs, job{"C17(" + sc.P.String() + ")", vsched.Config{Bound: sc.Bound, FireBudget: sc.P.Fire, MaxExec: sc.Max, Deadline: dl, StateKeys: true,
 				Body: c17Body(sc.P), Check: c17Check}})
 		}
+		ing := c17IngressParams{N: 3}
+		if tier == "thorough" {
+			ing.N = 4
+		}
+		jobs = append(jobs, job{"C17(" + ing.String() + ")", vsched.Config{Bound: -1, Deadline: dl, StateKeys: true, Body: c17IngressBody(ing), Check: c17IngressCheck}})
 		apps := []c17AppParams{{Peer: true, Ticks: 1}, {Peer: false, Ticks: 2}}
 		for _, ap := range apps {
 			b := 2
